@@ -357,6 +357,15 @@ def run_case(case, ctx):
         if type(e).__name__ == "PostBroken":
             raise
         fail("file with numbers in exponent notation raised %s: %s" % (type(e).__name__, str(e)[:150]), "exponent")
+    try:
+        bc = load(t1.replace("\n", "\r\n"))
+        if not same_structure(bc, b):
+            fail("the same file with CRLF line ends reads differently", "crlf")
+        st.count("crlf_variants")
+    except Exception as e:
+        if type(e).__name__ == "PostBroken":
+            raise
+        fail("the same file with CRLF line ends raised %s: %s" % (type(e).__name__, str(e)[:150]), "crlf")
     for name in ("P1", None):
         try:
             bv = load(sg_variant(t1, name))
